@@ -619,6 +619,43 @@ def local_defs(cu: 'CUnit', fname: str) -> Dict[str, List[Dict[str, Any]]]:
     return out
 
 
+def for_iteration_space(cu: 'CUnit', fname: str, lp: Dict[str, Any]) -> Optional[Dict[str, Any]]:
+    """What a `for` loop iterates over, whichever way it is written:
+      for (v = 0; v < N; v++)                    -> {var: v, bound: N, base: None}           element: BASE[v]
+      for (p = BASE; p < BASE + N; p++)          -> {var: p, bound: N, base: BASE}           element: *p / p->f
+      (the end pointer may be a local assigned `BASE + N` once and never otherwise written).
+    None when the loop has neither shape."""
+    from . import linexpr as lx
+    c_ir = lx.c_ir
+    if lp.get('kind') != 'ForStmt':
+        return None
+    init, _cv, cond, inc, _body = (lp['inner'] + [None] * 5)[:5]
+    if not (isinstance(init, dict) and is_assign(init)):
+        return None
+    var = cu.src_of(init['inner'][0])
+    if not (isinstance(inc, dict) and inc.get('kind') == 'UnaryOperator' and inc.get('opcode') == '++'
+            and cu.src_of(inc['inner'][0]) == var):
+        return None
+    ci = c_ir(cond, cu.src_of) if isinstance(cond, dict) and cond.get('kind') else None
+    if not (ci is not None and ci[0] == 'cmp' and list(ci[1]) == ['<'] and lx.show(ci[2][0]) == var):
+        return None
+    if int_value(strip(init['inner'][1])) == 0:
+        return {'var': var, 'bound': lx.show(ci[2][1]), 'base': None}
+    base = lx.to_lin(c_ir(init['inner'][1], cu.src_of), lx.Env())
+    end_ir = ci[2][1]
+    if end_ir[0] == 'sym':
+        defs = local_defs(cu, fname).get(end_ir[1], [])
+        if len(defs) != 1 or defs[0] is None:
+            return None
+        end_ir = c_ir(defs[0], cu.src_of)
+    end = lx.to_lin(end_ir, lx.Env())
+    diff = lx.lin_add(end, base, -1)
+    names = [k for k, v in base.items() if k != '' and v != 0]
+    if len(names) != 1 or base.get('', 0) != 0 or base[names[0]] != 1:
+        return None
+    return {'var': var, 'bound': lx.lin_show(diff), 'base': lx.lin_show(base)}
+
+
 def alias_binding(cu: 'CUnit', fname: str) -> Dict[str, Any]:
     """single-definition locals whose value is just another name / field / literal (possibly cast): name -> IR of that value.
     `const uint64_t ring_length = (uint64_t)last_ops_length;` makes ring_length read as last_ops_length."""
